@@ -261,6 +261,17 @@ def corpus(deep=False):
         T.binop("In", b, T.lst(T.Bool(True))), T.binop("In", b, T.lst(T.Bool(False), T.Bool(True))),
     ]
     out += [(t, True) for t in boolean_extras]
+    # fields, path segments and lambda variables spelled like an infix operator keyword: each is an accepted filter when written without
+    # optional blanks, so every layout of it must be accepted too
+    one = T.Int(1)
+    for kw in ("add", "sub", "mul", "div", "mod", "and", "or", "eq", "ne", "lt", "le", "gt", "ge", "in", "IN", "Eq", "has", "any", "all"):
+        k = T.I(kw)
+        out += [(t, False) for t in (
+            T.binop("Eq", k, one), T.binop("Eq", one, k), T.binop("Eq", T.unop("USub", k), one), T.unop("Not", T.binop("Eq", k, one)),
+            T.lst(one, T.binop("Eq", k, one)), T.lst(T.binop("Eq", k, one), k), T.lam(T.I("xs"), "Any", "x", T.binop("Eq", k, T.path("x", "p"))),
+            T.lam(T.I("xs"), "All", kw, T.binop("Eq", T.path(kw, "p"), one)), T.binop("Eq", T.call("f", one, T.binop("Eq", k, one), ns=("ns",)), one),
+            T.binop("In", k, T.lst(k, k)), T.binop("Eq", T.path("a", kw), one), T.binop("And", T.binop("Eq", T.path(kw, "b"), k), T.binop("Eq", k, k)),
+            T.binop("Eq", T.call("f", T.named("p", T.binop("Eq", k, one)), ns=("ns",)), one))]
     return out
 
 
